@@ -395,3 +395,24 @@ func mustFloat(v any) float64 {
 	f, _ := toFloat(v)
 	return f
 }
+
+// to-yaml: render a JSON document as YAML (double-quoted scalars) - used to feed YAML inputs (C10, C19)
+func init() {
+	cmds["to-yaml"] = func(args []string) error {
+		b, err := os.ReadFile(args[0])
+		if err != nil {
+			return err
+		}
+		dec := json.NewDecoder(bytes.NewReader(b))
+		dec.UseNumber()
+		var v any
+		if err := dec.Decode(&v); err != nil {
+			return err
+		}
+		out, err := yaml3.Marshal(toYAMLNode(v))
+		if err != nil {
+			return err
+		}
+		return os.WriteFile(args[1], out, 0o644)
+	}
+}
